@@ -95,7 +95,16 @@ class Check:
     def __init__(self, pid: str, tier: str, seed: int):
         self.pid, self.tier, self.seed = pid, tier, seed
         self.t0 = time.time()
-        self.build = os.path.join(BUILD, pid)
+        # one build directory per property; a concurrent run of the same property gets a private one
+        os.makedirs(BUILD, exist_ok=True)
+        self._lock = open(os.path.join(BUILD, f".{pid}.lock"), "w")
+        self._private_build = False
+        try:
+            fcntl.flock(self._lock, fcntl.LOCK_EX | fcntl.LOCK_NB)
+            self.build = os.path.join(BUILD, pid)
+        except OSError:
+            self.build = os.path.join(BUILD, f"{pid}.{os.getpid()}")
+            self._private_build = True
         shutil.rmtree(self.build, ignore_errors=True)
         os.makedirs(self.build)
         os.makedirs(os.path.join(VERIF, "evidence"), exist_ok=True)
@@ -307,6 +316,8 @@ class Check:
             pass
         except FileNotFoundError:
             pass
+        if self._private_build:
+            shutil.rmtree(self.build, ignore_errors=True)
         print(f"{self.pid}: obligations={len(self.obligations)} discharged={len(self.discharged)} "
               f"cases={cov['evaluations']} violations={len(self.violations)} "
               f"known={len(self.known)} wall={wall:.1f}s")
